@@ -33,6 +33,7 @@ var c11Alphabet = []string{
 	"rstop s1",
 	"pause s1 max=20000",
 	"pause s1 max=7000",
+	"pause s1 max=0", // nothing is held: every request is answered 504 at once
 	"stop s1 msg=m2",
 	"stop s1 msg=",
 	"resume s1",
@@ -160,7 +161,7 @@ func c11Extra(h *HWorld, op HOp, o *HObs) []Violation {
 	// pause drill on one paused service: held -> released by resume; held -> refused by stop
 	for _, n := range sortedKeys(h.M.Services) {
 		s := h.M.Services[n]
-		if s.Gate != "paused" {
+		if s.Gate != "paused" || s.MaxPause <= 0 {
 			continue
 		}
 		host := strings.Replace(s.Hosts[0], "*", "x", 1)
